@@ -5,10 +5,10 @@ open NutilsVerif NutilsVerif.Proto NutilsVerif.C09
 /-!
 Requests (fields separated by `|`):
 
-* `sample|<expr>|<tables>`  — `<expr>` in prefix notation (`D tag n c1..cn`, `C <e> n i1..in`, `A <e> <e>`, `M <e> <e>`,
+* `sample|<mode>|<expr>|<tables>`  — mode `index`, `lite` or `full`; `<expr>` in prefix notation (`D tag n c1..cn`, `C <e> n i1..in`, `A <e> <e>`, `M <e> <e>`,
   `T <e> n i1..in`, `Z <e> <e>`, `E`); `<tables>` = `tag elem : w.. : v..` entries separated by `;` (integer leaf weights
   and integer leaf values; the integrand is the product of the leaf values of a point).
-  Answer: `valid|can|nelems|npoints|index|pts|wts|integral loop flat|bind|weightAt`.
+  Answer: `valid|can|nelems|npoints|index` (index) `|pts|wts|integral` (lite) or `|pts|wts|integral loop flat|bind|weightAt` (full).
 * `take|<expr>|<indices>`   — `Sample.take_elements`; answer: the resulting expression.
 * `add|<expr>|<expr>`       — `Sample.__add__`.
 * `concat|<rules>|<dups>`   — `ConcatPoints`: rules separated by `;`, each `p:w p:w ..` (integer point ids and weights);
@@ -111,18 +111,24 @@ def b01 (b : Bool) : String := if b then "1" else "0"
 
 def handle (line : String) : String :=
   match fields line with
-  | ["sample", e, tb] =>
+  | ["sample", mode, e, tb] =>
     match parseExpr e, parseTables tb with
     | some s, some tb =>
       let w : LeafPt → Int := lookupW tb
       let f : Pt → Int := fun P => (P.map (lookupV tb)).foldl (· * ·) 1
       let ne := nelems s
       let idx := ";".intercalate ((index s).map showNats)
-      let ps := ";".intercalate ((List.range ne).map fun i => ",".intercalate ((pts s i).map showPt))
-      let ws := ";".intercalate ((List.range ne).map fun i => showInts (wts w s i))
-      let bind := showInts (bindList s f)
-      let wat := showInts ((List.range (npoints s)).map (weightAt w s))
-      s!"{b01 (validB s)}|{b01 (canIntegrate s)}|{ne}|{npoints s}|{idx}|{ps}|{ws}|{integralCode w s f} {loopIntegral w s f} {flatWeightedSum w s f}|{bind}|{wat}"
+      let head := s!"{b01 (validB s)}|{b01 (canIntegrate s)}|{ne}|{npoints s}|{idx}"
+      if mode == "index" then head
+      else
+        let ps := ";".intercalate ((List.range ne).map fun i => ",".intercalate ((pts s i).map showPt))
+        let ws := ";".intercalate ((List.range ne).map fun i => showInts (wts w s i))
+        if mode == "lite" then s!"{head}|{ps}|{ws}|{integralCode w s f}"
+        else if mode == "full" then
+          let bind := showInts (bindList s f)
+          let wat := showInts ((List.range (npoints s)).map (weightAt w s))
+          s!"{head}|{ps}|{ws}|{integralCode w s f} {loopIntegral w s f} {flatWeightedSum w s f}|{bind}|{wat}"
+        else "bad-request"
     | _, _ => "bad-request"
   | ["take", e, ind] =>
     match parseExpr e, parseNats ind with
